@@ -1,6 +1,6 @@
 SPECIFICATION Spec
 CONSTANTS
-  MaxRebind = 4
+  MaxRebind = 5
 INVARIANTS Refines
 POSTCONDITION Emit
 CHECK_DEADLOCK FALSE
